@@ -393,15 +393,17 @@ def build():
                               + ((" " + FOURTH_PASS[pid][0]) if pid in FOURTH_PASS else "")
                               + ((" " + FIFTH_PASS[pid][0]) if pid in FIFTH_PASS else "")
                               + ((" " + SIXTH_PASS[pid][0]) if pid in SIXTH_PASS else "")
-                              + ((" " + SEVENTH_PASS[pid][0]) if pid in SEVENTH_PASS else ""),
-                              "design_ref": c["design"] + (", 9.5" if "9.5" not in c["design"] else "") + ", 9.8, 9.9, 9.10, 9.11, 9.12, 9.13, 9.14"},
+                              + ((" " + SEVENTH_PASS[pid][0]) if pid in SEVENTH_PASS else "")
+                              + ((" " + EIGHTH_PASS[pid][0]) if pid in EIGHTH_PASS else ""),
+                              "design_ref": c["design"] + (", 9.5" if "9.5" not in c["design"] else "") + ", 9.8, 9.9, 9.10, 9.11, 9.12, 9.13, 9.14, 9.15, 9.16"},
             "level_note": c["note"],
             "technique": c["technique"] + (("; " + SECOND_PASS[pid][1]) if SECOND_PASS.get(pid, ("", ""))[1] else "")
             + (("; " + THIRD_PASS[pid][1]) if pid in THIRD_PASS else "")
             + (("; " + FOURTH_PASS[pid][1]) if pid in FOURTH_PASS else "")
             + (("; " + FIFTH_PASS[pid][1]) if pid in FIFTH_PASS else "")
             + (("; " + SIXTH_PASS[pid][1]) if pid in SIXTH_PASS else "")
-            + (("; " + SEVENTH_PASS[pid][1]) if pid in SEVENTH_PASS else ""),
+            + (("; " + SEVENTH_PASS[pid][1]) if pid in SEVENTH_PASS else "")
+            + (("; " + EIGHTH_PASS[pid][1]) if pid in EIGHTH_PASS else ""),
         })
     man = {
         "version": 1,
@@ -692,6 +694,34 @@ SEVENTH_PASS = {
     "C19": ("Second hunt and round 7: the argument of an addition is checked for its shape before the sum; a refused first addition is "
             "rolled back; a 'not there' handler of a view helper stands for one cell.", "refusal-before-effect and roll-back rules, try-scope rule"),
     "C20": ("Round 7: the array helper distributes rows (arrays with several columns are evaluated).", "finite evaluation with two-dimensional arrays"),
+}
+
+EIGHTH_PASS = {
+    "C01": ("Third hunt and round 8: the non-secular non-equilibrium Foerster tensor preserves the trace column by column.",
+            "index algebra on the NE Foerster assembler"),
+    "C02": ("Round 8: a store into a basis-managed tensor inside a basis context is made from managed reads.", "managed-store / managed-read pairing"),
+    "C03": ("Round 8: the operators keep no strengths across a change of basis - a stored basis-dependent value is tested only after "
+            "the managed data were touched.", "stored-result analysis with the lazy-transformation obligation"),
+    "C04": ("Third hunt and round 8: basis stacks move in lockstep; managed stores come from managed reads.", "lockstep rule; managed-store rule"),
+    "C06": ("Round 8: sums over sites run over the site index of the eigenvector matrix in every rate and tensor builder.",
+            "axis-role typing (site / eigenstate) of subscripts, products, transposes and einsum letters"),
+    "C08": ("Round 8: a flag given to a constructor is the flag of the new object.", "constructor path analysis with callee write summaries"),
+    "C09": ("Round 8: a temperature given explicitly replaces the one held in the components.", "explicit-argument rule on None-default parameters"),
+    "C10": ("Round 8: the Franck-Condon look-up compares the shift itself.", "exact-key rule on the searching methods"),
+    "C11": ("Round 8: the matrix of correlation functions keeps whole functions.", "whole-row store rule"),
+    "C12": ("Third hunt and round 8: the pathway generators diagonalize what is not diagonalized yet; pathways are generated from the "
+            "system and set-up of the call.", "dead-call rule (caller condition vs callee guard); stored-result analysis of the calculator"),
+    "C13": ("Round 8: a method that moves an axis moves points and description alike.", "symbolic interpretation of the axis record (start = S, data = S + k*step)"),
+    "C14": ("Round 8: the index handed to the bath getter and what the getter does with it add up to the molecule's number.",
+            "offset algebra over caller and callee"),
+    "C15": ("Third hunt and round 8: kernels of the propagators do not write into their operands; no accumulator persists across propagations.",
+            "effect analysis of the kernels; persistent-accumulator rule"),
+    "C16": ("Round 8: what is recorded while the baths are counted is recorded where the counter advances.", "counter-lockstep analysis"),
+    "C17": ("Round 8: a moved time axis is still one axis (rule of C13-G).", "symbolic interpretation of the axis record"),
+    "C18": ("Round 8: a recorded rank is restored exactly.", "path-condition rule on squeeze"),
+    "C19": ("Round 8: what is added or set is stored whole; a refused first addition restores also the absence of the storage.",
+            "faithful-store tracing; roll-back rule with absent attributes"),
+    "C20": ("Round 8: every collected item is received into an array of its own.", "per-iteration freshness of receive buffers"),
 }
 
 
